@@ -252,8 +252,16 @@ func gen(g *GenCtx) { genHist(g, 700, 20000) }
 // genSess: the same histories, fewer (every login is a real user-auth exchange over tubes)
 func genSess(g *GenCtx) { genHist(g, 300, 8000) }
 
+// perPart gives every part of a split run its own random stream
+func perPart(g *GenCtx) *Rng {
+	if g.Parts > 1 {
+		g.R = NewRng(g.R.U64() + uint64(g.Part)*0x9E3779B97F4A7C15)
+	}
+	return g.R
+}
+
 func genHist(g *GenCtx, nQuick, nThorough int) {
-	r := g.R
+	r := perPart(g)
 	// corpus: the smallest fail-open inputs
 	k0 := bytes.Repeat([]byte{7}, 32)
 	for _, content := range []string{"# comment\n", "garbage", entry(bytes.Repeat([]byte{9}, 32)) + "\nx\n"} {
@@ -344,7 +352,7 @@ func genHist(g *GenCtx, nQuick, nThorough int) {
 }
 
 func genParse(g *GenCtx) {
-	r := g.R
+	r := perPart(g)
 	for _, s := range []string{"", "\n", "# c\n", "hop-dh-v1-", "hop-dh-v1-\n", "\xc2\x85", "\xe2\x80\x80x\xe3\x80\x80", " \xa0"} {
 		g.Op("parse %s", hx(s))
 		g.Op("trim %s", hx(s))
